@@ -69,10 +69,11 @@ theorem unlawful_unreachable (c : Cmd) (h : nsOf c = some 1) : c.cls ∉ knownUn
 `GaussSem.gf θ c` is the channel on first and second moments of all quadratures (hbar = 2) that
 the command `c` implements — `μ ↦ Aμ + d`, `V ↦ AVAᵀ + Y` on the quadratures of its targets —
 with the documented blocks of `Rgate`, `Sgate`, `Pgate`, `Dgate`, `Xgate`, `Zgate`, `Fouriergate`,
-`LossChannel`, `ThermalLossChannel`, the Gaussian preparations, `BSgate`, `S2gate`, `CXgate`,
-`CZgate` (non-Gaussian, matrix-parametrised and measurement commands are place holders).  Its family
+`LossChannel`, `ThermalLossChannel`, the Gaussian preparations, single-mode `GaussianTransform(S)`,
+`PassiveChannel([[t]])`, real `Interferometer([[±1]])`, `BSgate`, `S2gate`, `CXgate`, `CZgate`
+(non-Gaussian gates / preparations and measurement commands are place holders).  Its family
 laws are *proved* (`GaussSem.rot_add`, `sq_add`, `shear_add`, `disp_add`, `x_add`, `z_add`,
-`fourier_cancel`, `loss_mul`, `prep_absorb_loc`, … from the angle-addition formulas), commands on
+`fourier_cancel`, `loss_mul`, `prep_absorb_loc`, `D1_mul`, … from the angle-addition formulas), commands on
 disjoint modes commute (`GaussSem.gf_comm`), so the Lawful hypothesis of `optimize_sem` is discharged. -/
 
 /-- **the optimiser does not change the Gaussian channel a circuit implements** — for every circuit,
@@ -87,6 +88,14 @@ theorem optimize_gaussian (θ : Nat → Rat) (B : Nat) (l out : List Cmd) (hwf :
 theorem optimize_gaussian_checked (θ : Nat → Rat) (B : Nat) (l out : List Cmd) (hwf : ∀ c ∈ l, WFc c)
     (h : isOptOutput B l out = true) : sem (GaussSem.gf θ) out = sem (GaussSem.gf θ) l :=
   optimize_checked_sem (GaussSem.gf θ) (GaussSem.gf_comm θ) (GaussSem.gaussLawful θ) B l out hwf h
+
+/-- **only true identities may be cancelled**: a `Vacuum` preparation is not the identity channel (it acts
+on every input state, the register of a later program segment is not in the vacuum), so deleting a
+leading `Vacuum` changes `sem (gf θ)`; the model's optimiser keeps it (`opMerge` never returns
+`identity` for a preparation) -/
+theorem vacuum_prep_not_identity (θ : Nat → Rat) (k i : Nat) :
+    GaussSem.gf θ { id := i, cls := "Vacuum", regs := [k] } ≠ 1 :=
+  GaussSem.vacuum_ne_one θ k i
 
 /-- **tie to the K3 specification**: the channel of a single-mode block `[[a, b], [c, d]]` on mode
 `k` acts on symmetric xp data exactly as `linMap (rows1 k a b c d)` of `SFV.Model.PhaseSpace`
